@@ -46,6 +46,21 @@ def post(run, exe, results, env):
             run.cov.setdefault("schedule_search", []).append({"K": k, "bargers": nb, "runs": nruns, "max_victim_sleeps": res["maxsleeps"], "bound": bound})
             for v in res["viols"]:
                 run.violation("%s|%s|search K=%d bargers=%d" % (v[0], v[1], k, nb), v[4], v[5])
+    # ... and with bargers of another kind: a thread that sits in a condition-variable wait loop on the same mutex (it re-acquires after every
+    # signal and, its condition being false, waits again) and a thread that keeps signalling
+    from muconfigs import cvl
+    for k, x, nruns in ((K, exe, cruns[0]), (K2, exe2, cruns[1])):
+        for nw in (1, 2):
+            progs = [P("L", "U")] + [P("L", cvl(v=1), "U")] * nw + [P("S")]
+            conf = dict(progs=progs, NV=1, Loopers=list(range(2, len(progs) + 1)))
+            if k != K:
+                conf["kthr"] = k
+            bound = k + len(progs) + 1
+            res = run_harness_env(x, ["climb", str(nruns), str(seed() + 10 + nw), "sb=%d " % bound + muconf.init_line(conf), REPLAYS], dict(env, VERIF_SB=str(bound)))
+            run.add("evaluations", nruns); run.add("distinct_nontrivial", res["stats"].get("nontrivial", 0))
+            run.cov.setdefault("schedule_search", []).append({"K": k, "bargers": "%d cv-loop waiter(s) + signaller" % nw, "runs": nruns, "max_victim_sleeps": res["maxsleeps"], "bound": bound})
+            for v in res["viols"]:
+                run.violation("%s|%s|search K=%d cv waiters=%d" % (v[0], v[1], k, nw), v[4], v[5])
     # random schedules with many barging threads
     runs = 300 if run.tier == "quick" else 5000
     for nb in (4, 6):
